@@ -291,7 +291,11 @@ class DiameterAssociation(object):
             MESSAGE_LENGTH = len(msg.dump())
 
             if MESSAGE_LENGTH > SEND_BUFFER_MAXIMUM_SIZE - len(stream):
-                self._send_messages.put(msg)
+                #: It goes first in the next batch. Putting it back at the 
+                #: tail of the queue would let the messages queued behind 
+                #: it overtake it.
+                with self._send_messages.mutex:
+                    self._send_messages.queue.appendleft(msg)
                 break
 
             if isinstance(msg, DiameterRequest):
